@@ -443,6 +443,7 @@ package nbhttp
 //@   ensures max: result == nil && br.engine.MaxHTTPBodySize > 0 && old(len(data)) > 0 ==> br.left <= br.engine.MaxHTTPBodySize    // prop C08
 //@   ensures sum: result == nil ==> br.left == old(br.left) + old(len(data))                                             // prop C08
 //@   ensures refuse: result != nil ==> br.left == old(br.left) && len(br.buffers) == old(len(br.buffers))                // prop C08
+//@   ensures accept: !(old(br.engine.MaxHTTPBodySize) > 0 && old(br.left) + old(len(data)) > old(br.engine.MaxHTTPBodySize)) ==> result == nil   // prop C08
 //@   ensures inv: BodyInv(br)                                                                                            // prop C11
 //@   assigns everything
 
